@@ -21,6 +21,7 @@ from translate import c18 as T
 
 ID = 'C18'
 PROPS_V = 'C18/Props.v'
+COQCHK = 'norec'   # closure rests on Reals (and Interval): full coqchk takes tens of minutes
 LEVEL = 'proof'
 PROVE_TIMEOUT = 900
 TRUSTED = [
@@ -695,7 +696,7 @@ def check_angles(ctx, have_spec):
                 dphi = (b[0] - p[0] + 180.0) % 360.0 - 180.0
                 if abs(dphi) > 1e-8 or abs(b[1] - p[1]) > 1e-6 * abs(p[1]) + 1e-8:
                     viol('C18:angles:roundtrip:lat=%s' % lat, 'x_to_angles(angles_to_x(%r)) = %r (latitude=%s)' % (p, b, lat), rep, True)
-                if len(encl) < ctx.n(16, 120) and rng.random() < 0.2:
+                if sum(1 for e in encl if e[0] == lat) < ctx.n(8, 60) and rng.random() < 0.2:
                     encl.append((lat, p[0], p[1], x))
         else:
             for x, a, b in zip(job['x'], r['a'], r['back']):
